@@ -134,6 +134,16 @@ class Prop(c09.Prop):
         try:
             fa = cl.open_mm(fmt, p0, r)
             pa = present(fa)
+            if fmt in ('uamiv', 'lateral_boundary'):
+                # another file of the same format, on another grid, opened and read while the first is open:
+                # nothing of it may reach the first file's rewrite
+                d2 = dict(d, shape=[d['shape'][0] % 3 + 1, d['shape'][1] % 3 + 2, d['shape'][2]])
+                r2 = camx_u.materialize(d2)
+                p3 = self.path('other')
+                with open(p3, 'wb') as fh:
+                    fh.write(camx_u.encode(r2))
+                fo = cl.open_mm(fmt, p3, r2)
+                present(fo)
             cl.write(fmt, fa, p1)
             fb = cl.open_mm(fmt, p1, r)
             pb = present(fb)
